@@ -727,6 +727,25 @@ func genC13(e *emitter, r *rng, tier string) {
 			}
 		}
 	}
+	// values far beyond / far below the machine word that are NOT integers (a fast-forward of the
+	// scaling loops by an estimated number of digits must not overshoot): 20–60-digit numerators
+	// over small denominators, and the reciprocals
+	for _, d := range []int{20, 22, 25, 30, 40, 60} {
+		for _, den := range []int64{3, 7, 9, 11, 13, 97, 101, 997} {
+			if tier == "quick" && (int64(d)+den)%3 != 0 {
+				continue
+			}
+			num := r.bigRand(d)
+			if new(big.Int).Mod(num, big.NewInt(den)).Sign() == 0 {
+				num.Add(num, big.NewInt(1))
+			}
+			fixed = append(fixed, nd{num, big.NewInt(den)})
+			fixed = append(fixed, nd{big.NewInt(den), num})
+			// leading digits of the numerator below those of the denominator: 49…01 / 7
+			lead := new(big.Int).Add(new(big.Int).Mul(big.NewInt(den*7/10+1), pow(10, d)), big.NewInt(1))
+			fixed = append(fixed, nd{lead, big.NewInt(den)})
+		}
+	}
 	for i := 0; i < n/4+len(fixed); i++ {
 		var num, den *big.Int
 		sel := r.intn(6)
